@@ -168,7 +168,7 @@ def names_and_spellings(res, prog, cu):
 
 
 def windows(res, prog, cu):
-    res.rule('C04.5', 0, floor=7, note='documented scan windows: 40 words (x4 for the context frame), amd64/Windows frame-pointer slack 15 x 16 bytes, MIPS 1024 bytes')
+    res.rule('C04.5', 0, floor=12, note='documented scan windows: 40 words (x4 for the context frame), amd64/Windows frame-pointer slack 15 x 16 bytes, MIPS 1024 bytes')
     for arch in ('x86', 'amd64', 'arm', 'arm64', 'arm64_old'):
         f = cu.fn('minidump_unwind::%s::get_caller_by_scan::{closure#0}' % arch)
         if f is None:
@@ -185,6 +185,19 @@ def windows(res, prog, cu):
             res.violation('C04.5', 'C04.5|scan|%s' % arch, f, f.line, 'scan window is %s / %s words, documented 40 / 160' % (d and show(d), e and show(e)))
         else:
             res.sample({'rule': 'C04.5', 'arch': arch, 'scan_words': 40, 'context_frame_words': 160})
+        # the window really is scanned from its first to its last word: `for i in 0..scan_range`, slot i at sp + i * width
+        res.rule('C04.5', 1)
+        rng = [show(f.expand(f.operand_tree(t['args'][0]))) for b, t in f.calls() if (f.callee(t) or '').endswith('IntoIterator>::into_iter')]
+        if rng != ['(adt std::ops::Range::Range 0 scan_range)']:
+            res.violation('C04.5', 'C04.5|range|%s' % arch, f, f.line, 'the scan iterates over %s, not over 0..scan_range: a slot at the edge of the documented window is never examined' % rng)
+        addr = None
+        for l in range(len(f.locals)):
+            if f.local_name(l) in ('address_of_pc', 'address_of_ip'):
+                sd = f.single_def(l)
+                if sd is not None:
+                    addr = show(f.expand(f.rvalue_tree(sd['rv']) if sd['kind'] == 'assign' else f.call_tree(sd['term'])))
+        if not addr or not re.match(r'^\(Continue\.0 \(trybranch \(core::num::checked_add .+ \(Mul \(Some\.0 \(std::iter::range::next _\d*\)\) \(item minidump_unwind::%s::POINTER_WIDTH\)\)\)\)\)$' % arch, addr):
+            res.violation('C04.5', 'C04.5|slot|%s' % arch, f, f.line, 'the examined slot is %s, not checked_add(sp, i * POINTER_WIDTH)?' % (addr or 'not found')[:200])
     f = cu.fn('minidump_unwind::amd64::get_caller_by_frame_pointer')
     if f is not None:
         res.rule('C04.5', 1)
